@@ -46,11 +46,18 @@ def main(argv=None):
         return 1 if res.violations else 0
 
     if args.worker_out:
+        # Workers alternate the process time zone (instants are zone independent, the code's
+        # local-time conversions are not); C08 picks its own zones.
+        if prop != "C08" and not os.environ.get("TFMON_FIXED_TZ"):
+            zone = ["UTC", "America/Los_Angeles", "Australia/Lord_Howe", "Asia/Kathmandu"][args.shard % 4]
+            os.environ["TZ"] = zone
+            time.tzset()
         res = core.Result(prop, args.tier, seed)
         try:
             mod.run(res, args.tier, seed, args.shard, args.nshards)
         except Exception:  # harness failure is never a verdict
             res.inconclusive.append("worker crashed: " + traceback.format_exc()[-1500:])
+        res.count(f"worker_tz.{os.environ.get('TZ')}")
         with open(args.worker_out, "w") as f:
             json.dump(res.dump(), f, default=repr)
         return 0
